@@ -112,6 +112,8 @@ class SimSelector(selectors._BaseSelectorImpl):
         self.order_rng = order_rng
         self._idle_at = -1
         self._idle_polls = 0
+        self._spin_sig = None
+        self._spins = 0
 
     def _ready(self):
         out = []
@@ -135,9 +137,26 @@ class SimSelector(selectors._BaseSelectorImpl):
 
     def select(self, timeout=None):
         r = self._ready()
-        if r:
-            return r
         sim = self.sim
+        if r:
+            # A reader that never consumes what is ready makes a real loop spin, burning real time
+            # until its next timer is due. Virtual time does not pass by itself: after many polls
+            # at one instant with nothing consumed, let the time up to the next timer pass.
+            sig = (sim.now, tuple((k.fd, len(sim.endpoints[k.fd].queue)) for k, _ in r))
+            if sig == self._spin_sig:
+                self._spins += 1
+                if self._spins > 200:
+                    sim.count("sched.busy-loop")
+                    self._spins = 0
+                    if timeout is None:
+                        raise SimStepLimit("event loop spins on a ready descriptor nobody reads (no timer pending)")
+                    if timeout > 0:
+                        sim.run_until(sim.now + max(1, int(round(timeout * 1e9))))
+                        return self._ready()
+            else:
+                self._spin_sig = sig
+                self._spins = 0
+            return r
         if timeout is not None and timeout <= 0:
             # The loop clock is a float. Far from the origin a due timer can compare
             # equal to time() + resolution and never fire while the (real) clock
